@@ -1,9 +1,82 @@
 import PoryProofs.ProgramMetaSelWF
+import PoryProofs.ProgramMetaConst
 import PoryProofs.Properties.P2
 import PoryProofs.Properties.C12c
 /-
-P2c — whole-file metamorphic theorems for C12 (poryswitch = the selected case), assembled from P2 / C12c.
-(WORK IN PROGRESS header — replaced at the end.)
+P2c — whole-file metamorphic theorems for C12 ("a poryswitch contributes exactly the statements of the case
+selected by the `-s` value, or of `_`: the file compiles to what the hand-selected file compiles to") and C13
+("using a constant is the same as writing its value"), assembled from P2 (whole-file grammar, `compileFile`,
+`compile_print`), C12c (script bodies: `selectB`, `selL_ok`, `emit_ids_irrelevant`) and C13c (script bodies:
+`expandB`, `elab_const_expand`).
+
+Helper modules (all new): PoryProofs/ProgramMetaSel.lean (C12: invariant between the two runs of the file
+elaboration, ONE order-preserving id correspondence for the whole file), ProgramMetaSelWF.lean (the selected
+file is a file of the grammar again and contains no poryswitch), ProgramMetaErase.lean (the emitter never reads
+the TYPE of a switch-operand / case-value token: `emitScript_erase`, by commuting C13c's `eraseL` through the
+worklist of `PoryModel/Emitter.lean` and through `PoryModel/EmitRender.lean`), ProgramMetaConst.lean (C13:
+`expandTops`, invariant, `elabTops_exp`, `post_exp`, well-formedness of the expanded file).
+
+GRAMMAR: the files of P2 (`STop`: script / raw / const / movement / mart / text statements; script bodies = the
+statement grammar of P1). Everything is stated on `compileFile env o eofT ts : Except CErr Sections` (P2: the
+reference elaboration `elabTops`, the post-passes `finish`, the emitter as four sections of blocks;
+`Sections.lines` = the lines `emitProgram` returns) and transported to the model's own pipeline
+`compileToks` (= `parseTokens`, then `emitProgram`) on the printed tokens by `P2.compile_print`.
+
+1. C12 — `selectTops env ts`: in every script body every statement-level poryswitch replaced (recursively) by
+   the statements of its selected case (`C12c.selectB`).
+   PROVED
+   * `file_poryswitch_selected` : if the file ELABORATES (`elabTops env ts (initState eofT) = .ok _`: the parser
+     accepts it up to the post-passes) and every script body of the selected file obeys the `continue` rule
+     (`ContLastTops (selectTops env ts)`, decidable; C12c's `ContLast` lifted to all scripts), then
+         `compileFile env o eofT (selectTops env ts) = compileFile env o eofT ts`
+     — the same `Sections` or the same error of the post-passes (duplicate text / movement label) or of the
+     emitter, for all emitter options. The command ids and scope ids of EVERY later script differ in the two
+     parses (ids are not reset between scripts; the unselected cases consume ids): one correspondence `R` for
+     the whole file is threaded through `elabTops` (`elabTops_sel`), the patch lists correspond under it, and
+     `P2.topBlocks_frame` / `C12c.patchedArgs_rel` show that it does not reach the output.
+   * `file_poryswitch_selected_ok` : `compileFile … ts = .ok S → compileFile … (selectTops env ts) = .ok S`.
+   * `file_poryswitch_selected_tokens` : the same through `compileToks` on the printed tokens of both files
+     (`selectTops_twf`: the selected file of a well-formed file is well formed).
+   * `selectTops_noPory` : the selected file of an accepted file contains no statement-level poryswitch.
+   FALSE OF THE MODEL (witnesses, `decide` / `rfl`; `file_poryswitch_selected_full_false`)
+   * `selected_file_may_compile_alone` (the F18 direction): "both fail or both compile" is false — with `-s V=B`,
+     `script X { poryswitch (V) { A: break _: foo } }` is rejected because of the `break` in the case that is NOT
+     selected, the hand-selected file `script X { foo }` compiles. So equality of PARSE errors cannot hold; what
+     holds is the implication from the original file (hypothesis "the file elaborates").
+   * `selected_file_continue_rejected` : the `continue` rule is needed (C12c's finding, as files).
+2. C13 — `expandTops ts`: the `const` statements dropped; in every later statement every use site replaced by
+   the tokens of the value (values are stored fully expanded: `C13b.newWords`): script bodies by C13c's
+   `expandB wt` (command arguments, condition operands and comparison values, switch operands, case values),
+   mart items by `expandToks wt` — the P2 grammar substitutes in mart items (`stepTop`), NOT in movement
+   steps, names, raw / text statements, and neither does `expandTops`.
+   PROVED
+   * `file_const_expand` : for `ConstsOK ts` (decidable: const names are new, every value is a non-empty list
+     of tokens with non-empty literals — then no `const` statement fails and the stored value is the
+     single-space join of its words —; a mart item that names a constant names a ONE-word value)
+         `compileFile env o eofT (expandTops ts) = compileFile env o eofT ts`
+     — the same sections, or the same error (located parse error of a script body, post-passes, emitter); all
+     options. No condition on the values is needed at this level (the expansion is a tree: `setvar(K)` with
+     `K = 1 , 2` stays ONE argument).  The two parses differ in the TYPE of switch-operand / case-value tokens
+     (`case N` stores `IDENT "5"`, `case 5` stores `INT "5"`: C13c's `eraseL`); `emitScript_erase` (new) shows
+     the emitter does not read it.
+   * `file_const_expand_parse` : the parser alone — the same located error.
+   * `file_const_expand_tokens` : through `compileToks` on the printed tokens of both files, when moreover the
+     values are plain tokens where they are used (`PlainOK`, decidable: C13c's `PlainValues` at every script —
+     F24 —, IDENT words in mart lists); `expandTops_twf`: then the expanded file is a file of the grammar.
+   FALSE OF THE MODEL (witnesses by `decide`; `file_const_expand_full_false`)
+   * `mart_multiword_differs` : `const W = A B  mart M { W }` emits ONE line `.2byte A B`; the hand expansion
+     `mart M { A B }` two lines — a mart item is substituted as a string, the list is not re-split.
+   * `const_errors_lost` : dropping the `const` statements drops their errors (a redefined constant).
+   * `comma_value_file` (F24 for files): with `const K = 1 , 2` the printed tokens of the expanded file are the
+     printed tokens of `setvar(1, 2)` with TWO arguments — `PlainOK` is needed for the token-level statement.
+3. OUTSIDE (nothing here says anything about them): `mapscripts` statements; poryswitch inside movement / mart
+   lists and text statements (C12b / C14b on the parser); `format( … )` text values; constants in `mapscripts`
+   entries; everything P2 / P1 list as not covered (a `const` as the last statement of a file, token sequences
+   outside the grammar, the lexer: statements are about token lists, `#guard`s check the example tokens against
+   the model lexer). For C12 the parse errors of a file that does NOT elaborate are not compared (false in
+   general, see above); for C13 files violating `ConstsOK` are not compared (false in general, see above).
+
+Nothing is left partial inside this scope.
 -/
 namespace Pory.P2c
 open Pory Pory.Parser Pory.C02P Pory.StmtG Pory.TopParse Pory.Emit Pory.P2
@@ -238,6 +311,215 @@ example : ∀ t ∈ exFileSel, NoPoryTop t := by decide
 
 end Example
 
+/-! ## 2. C13 for whole files -/
+section C13
+open Pory.C13b Pory.C13c
+
+/-- **C13, whole files.** For a file whose `const` statements are in order (`ConstsOK`: new names, non-empty
+values of tokens with non-empty literals; mart items name one-word values only), the hand-expanded file —
+`const` statements dropped, every later use replaced by the tokens of the fully expanded value — compiles to
+exactly the same result: the same `Sections` (hence the same lines) or the same error (of the parser, located;
+of the post-passes; of the emitter). -/
+theorem file_const_expand (env : Env) (o : Opts) (eofT : Tok) (ts : List STop) (hok : ConstsOK ts) :
+    compileFile env o eofT (expandTops ts) = compileFile env o eofT ts := by
+  have h := elabTops_exp env ts (expInv_init eofT) hok
+  rw [compileFile_post, compileFile_post]
+  cases he : elabTops env ts (initState eofT) with
+  | error e =>
+    rw [he] at h
+    simp only [expandTops, h]
+  | ok q =>
+    rw [he] at h
+    obtain ⟨tops', b1, wt1, e1, inv1, rel1⟩ := h
+    simp only [expandTops, e1]
+    exact post_exp o inv1 rel1
+
+/-- … on the parser alone: the same located error, or both files are accepted. -/
+theorem file_const_expand_parse (env : Env) (eofT : Tok) (ts : List STop) (hok : ConstsOK ts) :
+    (∀ e, elabFile env ts (initState eofT) = .error e ↔ elabFile env (expandTops ts) (initState eofT) = .error e) := by
+  intro e
+  have h := file_const_expand env { optimize := false } eofT ts hok
+  rw [compileFile_post, compileFile_post] at h
+  unfold elabFile
+  unfold post at h
+  cases h1 : elabTops env ts (initState eofT) with
+  | error e1 =>
+    rw [h1] at h
+    cases h2 : elabTops env (expandTops ts) (initState eofT) with
+    | error e2 => rw [h2] at h; simp only [Except.error.injEq, CErr.parse.injEq] at h; rw [h]
+    | ok q2 =>
+      rw [h2] at h
+      simp only at h
+      split at h
+      · rename_i e3 hf; simp only [Except.error.injEq, CErr.parse.injEq] at h; simp only [hf, h]
+      · split at h <;> cases h
+  | ok q1 =>
+    rw [h1] at h
+    cases h2 : elabTops env (expandTops ts) (initState eofT) with
+    | error e2 =>
+      rw [h2] at h
+      simp only at h
+      split at h
+      · rename_i e3 hf; simp only [Except.error.injEq, CErr.parse.injEq] at h; simp only [hf, h]
+      · split at h <;> cases h
+    | ok q2 =>
+      rw [h2] at h
+      simp only at h ⊢
+      cases hf1 : finish q1.1 q1.2 with
+      | error e3 =>
+        rw [hf1] at h
+        cases hf2 : finish q2.1 q2.2 with
+        | error e4 => rw [hf2] at h; simp only [Except.error.injEq, CErr.parse.injEq] at h; rw [h]
+        | ok p2 => rw [hf2] at h; simp only at h; split at h <;> cases h
+      | ok p1 =>
+        rw [hf1] at h
+        cases hf2 : finish q2.1 q2.2 with
+        | error e4 => rw [hf2] at h; simp only at h; split at h <;> cases h
+        | ok p2 => simp
+
+/-- **C13, whole files, through the model's pipeline on tokens**: when, in addition, the values are plain tokens
+where they are used (`PlainOK`: C13c's `PlainValues` at every script, IDENT words in mart lists — then the
+hand-expanded file is a file of the grammar), the printed tokens of the two files give the same result. -/
+theorem file_const_expand_tokens (env : Env) (o : Opts) (eofT : Tok) (heof : eofT.type = .EOF) (ts : List STop)
+    (hwf : TWF ts) (hok : ConstsOK ts) (hp : PlainOK ts) :
+    compileToks env o (printTops (expandTops ts) ++ [eofT]) = compileToks env o (printTops ts ++ [eofT]) := by
+  rw [compile_print env o eofT heof _ hwf, compile_print env o eofT heof _ (expandTops_twf ts hwf hok hp),
+    file_const_expand env o eofT ts hok]
+
+/-- The statement without side conditions. -/
+def file_const_expand_full : Prop :=
+  ∀ (env : Env) (o : Opts) (eofT : Tok) (ts : List STop),
+    compileFile env o eofT (expandTops ts) = compileFile env o eofT ts
+
+section Example
+
+private def comma : Tok := tk .COMMA ","
+private def cst (n : String) (vs : List Tok) : STop :=
+  .const (tk .CONST "const") (tk .IDENT n) (tk .ASSIGN "=") vs
+private def mart (n : String) (items : List Tok) : STop :=
+  .mart (tk .MART "mart") .absent (tk .IDENT n) lb items rb
+
+/-- `const N = 5  const P = ITEM_POTION  const Q = N + 1
+    script S { setvar(VAR_X, Q) switch (var(VAR_X)) { case N: giveitem(P) } }  mart M { P ITEM_BALL }` -/
+def exConstFile : List STop :=
+  [cst "N" [tk .INT "5"],
+   cst "P" [tk .IDENT "ITEM_POTION"],
+   cst "Q" [tk .IDENT "N", tk .ILLEGAL "+", tk .INT "1"],
+   scr "S"
+     [.cmd (tk .IDENT "setvar") lp [tk .IDENT "VAR_X"] [(comma, [tk .IDENT "Q"])] rp,
+      .switch_ (tk .SWITCH "switch") lp (tk .VAR "var") lp [tk .IDENT "VAR_X"] rp rp lb
+        [.case (tk .CASE "case") [tk .IDENT "N"] colon [.cmd (tk .IDENT "giveitem") lp [tk .IDENT "P"] [] rp]] rb],
+   mart "M" [tk .IDENT "P", tk .IDENT "ITEM_BALL"]]
+
+/-- the hand-expanded file:
+`script S { setvar(VAR_X, 5 + 1) switch (var(VAR_X)) { case 5: giveitem(ITEM_POTION) } }  mart M { ITEM_POTION ITEM_BALL }`
+(`Q` is stored fully expanded: `5 + 1`; the case value `5` is now an INT token — it was the IDENT `N`) -/
+def exConstFileExp : List STop :=
+  [scr "S"
+     [.cmd (tk .IDENT "setvar") lp [tk .IDENT "VAR_X"] [(comma, [tk .INT "5", tk .ILLEGAL "+", tk .INT "1"])] rp,
+      .switch_ (tk .SWITCH "switch") lp (tk .VAR "var") lp [tk .IDENT "VAR_X"] rp rp lb
+        [.case (tk .CASE "case") [tk .INT "5"] colon
+          [.cmd (tk .IDENT "giveitem") lp [tk .IDENT "ITEM_POTION"] [] rp]] rb],
+   mart "M" [tk .IDENT "ITEM_POTION", tk .IDENT "ITEM_BALL"]]
+
+-- sanity checks (evaluation, not proofs): both token lists are what the model lexer produces
+#guard (Lexer.lexAll ("const N = 5 const P = ITEM_POTION const Q = N + 1 script S { setvar(VAR_X, Q) " ++
+    "switch (var(VAR_X)) { case N: giveitem(P) } } mart M { P ITEM_BALL }").toList).map (fun t => (t.type, t.lit)) ==
+  (printTops exConstFile ++ [P2.eofT]).map (fun t => (t.type, t.lit))
+#guard (Lexer.lexAll ("script S { setvar(VAR_X, 5 + 1) switch (var(VAR_X)) { case 5: giveitem(ITEM_POTION) } } " ++
+    "mart M { ITEM_POTION ITEM_BALL }").toList).map (fun t => (t.type, t.lit)) ==
+  (printTops exConstFileExp ++ [P2.eofT]).map (fun t => (t.type, t.lit))
+
+theorem exConstFile_exp : printTops (expandTops exConstFile) = printTops exConstFileExp := by decide
+theorem exConstFile_wf : TWF exConstFile := by decide
+theorem exConstFile_ok : ConstsOK exConstFile := by decide
+theorem exConstFile_plain : PlainOK exConstFile := by decide
+
+/-- the sections both files compile to -/
+def exConstSections : Sections :=
+  { tops := [[.labelDef "S" true, .command "setvar" ["VAR_X", "5 + 1"], .switch_ "VAR_X", .case_ "5" "S_2",
+              .terminator false, .blank,
+              .labelDef "S_2" false, .command "giveitem" ["ITEM_POTION"], .terminator false, .blank],
+             [.align2, .labelDef "M" false, .twoByte "ITEM_POTION", .twoByte "ITEM_BALL", .twoByte "ITEM_NONE"]] }
+
+/-- **Non-vacuity**: both sides computed (`decide`). -/
+theorem exConstFile_compiled : compileFile {} exO P2.eofT exConstFile = .ok exConstSections :=
+  toOption_some (by decide)
+theorem exConstFileExp_compiled : compileFile {} exO P2.eofT exConstFileExp = .ok exConstSections :=
+  toOption_some (by decide)
+theorem exConstFile_expand_compiled : compileFile {} exO P2.eofT (expandTops exConstFile) = .ok exConstSections :=
+  toOption_some (by decide)
+
+/-- The theorem instantiated, for every emitter option … -/
+example (o : Opts) :
+    compileFile {} o P2.eofT (expandTops exConstFile) = compileFile {} o P2.eofT exConstFile :=
+  file_const_expand {} o P2.eofT exConstFile exConstFile_ok
+
+/-- … and through the model's pipeline on the printed tokens (of the file and of the hand-written expansion). -/
+example (o : Opts) :
+    compileToks {} o (printTops exConstFileExp ++ [P2.eofT]) = compileToks {} o (printTops exConstFile ++ [P2.eofT]) :=
+  exConstFile_exp ▸
+    file_const_expand_tokens {} o P2.eofT rfl exConstFile exConstFile_wf exConstFile_ok exConstFile_plain
+
+/-! ### what is false without the side conditions -/
+
+/-- `const W = A B  mart M { W }` -/
+def exMartWords : List STop := [cst "W" [tk .IDENT "A", tk .IDENT "B"], mart "M" [tk .IDENT "W"]]
+
+/-- **A mart item that names a multi-word constant is ONE `.2byte` line, its expansion two** (the model
+substitutes the literal of the item; the list is not re-split): the side condition on mart items is needed. -/
+theorem mart_multiword_differs :
+    ¬ ConstsOK exMartWords ∧
+    (compileFile {} exO P2.eofT exMartWords).toOption.map (·.tops) =
+      some [[.align2, .labelDef "M" false, .twoByte "A B", .twoByte "ITEM_NONE"]] ∧
+    (compileFile {} exO P2.eofT (expandTops exMartWords)).toOption.map (·.tops) =
+      some [[.align2, .labelDef "M" false, .twoByte "A", .twoByte "B", .twoByte "ITEM_NONE"]] := by
+  decide
+
+/-- `const N = 5  const N = 6  raw` -/
+def exDupConst : List STop := [cst "N" [tk .INT "5"], cst "N" [tk .INT "6"], .raw (tk .RAW "raw") (tk .RAWSTRING "nop")]
+
+/-- **Dropping the `const` statements drops their errors**: a redefined constant is rejected, the hand-expanded
+file (no `const` statements) compiles. -/
+theorem const_errors_lost :
+    ¬ ConstsOK exDupConst ∧
+    elabTops {} exDupConst (initState P2.eofT) =
+      .error (newParseError (tk .IDENT "N") "duplicate const 'N'. Must use unique const names") ∧
+    (compileFile {} exO P2.eofT (expandTops exDupConst)).toOption.map (·.tops) = some [[.raw "nop"]] :=
+  ⟨by decide, rfl, by decide⟩
+
+theorem file_const_expand_full_false : ¬ file_const_expand_full := by
+  intro H
+  have h := H {} exO P2.eofT exMartWords
+  have h1 := mart_multiword_differs.2.1
+  have h2 := mart_multiword_differs.2.2
+  rw [h, h1] at h2
+  revert h2
+  decide
+
+/-- `const K = 1 , 2  script S { setvar(K) }` and the file the printed tokens of its expansion parse to:
+`script S { setvar(1 , 2) }` with TWO arguments -/
+def exComma : List STop :=
+  [cst "K" [tk .INT "1", comma, tk .INT "2"], scr "S" [.cmd (tk .IDENT "setvar") lp [tk .IDENT "K"] [] rp]]
+def exComma2 : List STop :=
+  [scr "S" [.cmd (tk .IDENT "setvar") lp [tk .INT "1"] [(comma, [tk .INT "2"])] rp]]
+
+/-- **F24 for whole files: the values must be plain tokens for the TOKEN-level statement.** `const K = 1 , 2` is
+accepted; `setvar(K)` has ONE argument `1 , 2` — also in the expanded file as a tree (`file_const_expand` needs
+no condition on the values) — but the printed tokens of the expanded file ARE the printed tokens of
+`setvar(1, 2)` with two arguments, and that is what the pipeline compiles them to. -/
+theorem comma_value_file :
+    ConstsOK exComma ∧ ¬ PlainOK exComma ∧ TWF exComma2 ∧
+    printTops (expandTops exComma) = printTops exComma2 ∧
+    (compileFile {} exO P2.eofT exComma).toOption.map (·.tops) =
+      some [[.labelDef "S" true, .command "setvar" ["1 , 2"], .terminator false, .blank]] ∧
+    (compileFile {} exO P2.eofT exComma2).toOption.map (·.tops) =
+      some [[.labelDef "S" true, .command "setvar" ["1", "2"], .terminator false, .blank]] := by
+  decide
+
+end Example
+end C13
+
 #print axioms file_poryswitch_selected
 #print axioms file_poryswitch_selected_ok
 #print axioms file_poryswitch_selected_tokens
@@ -246,5 +528,14 @@ end Example
 #print axioms selected_file_may_compile_alone
 #print axioms selected_file_continue_rejected
 #print axioms file_poryswitch_selected_full_false
+#print axioms file_const_expand
+#print axioms file_const_expand_parse
+#print axioms file_const_expand_tokens
+#print axioms expandTops_twf
+#print axioms emitScript_erase
+#print axioms mart_multiword_differs
+#print axioms const_errors_lost
+#print axioms file_const_expand_full_false
+#print axioms comma_value_file
 
 end Pory.P2c
